@@ -63,9 +63,25 @@ where
 
     fn call(&mut self, req: http::request::Parts) -> Self::Future {
         let config = self.config.clone();
-        let Some(host) = req.uri.host().map(String::from) else {
+        let Some(host) = req.uri.host() else {
             return future::TlsConnectionFuture::error(TlsConnectionError::NoDomain);
         };
+
+        // The host of a URI keeps the brackets of an IPv6 literal (`[::1]`),
+        // a TLS server name is the bare address.
+        let host = host
+            .strip_prefix('[')
+            .and_then(|h| h.strip_suffix(']'))
+            .unwrap_or(host);
+
+        // Not every URI host is a name TLS can verify a certificate against.
+        // Report that here, `TlsStream::new` panics on such a name.
+        if rustls::pki_types::ServerName::try_from(host).is_err() {
+            return future::TlsConnectionFuture::error(TlsConnectionError::InvalidDomain(
+                host.to_owned(),
+            ));
+        }
+        let host = host.to_owned();
 
         let future = self.transport.connect(req);
 
